@@ -6,9 +6,11 @@ root = Path(__file__).resolve().parent.parent
 sys.path.insert(0, str(root))
 props = [json.loads(l)["id"] for l in (root / "properties.jsonl").read_text().splitlines() if l.strip()]
 checks, na = [], []
+pending_file = root / "tools" / "pending.txt"
+pending = set(pending_file.read_text().split()) if pending_file.exists() else set()
 for pid in props:
     f = root / "harness" / "props" / f"{pid.lower()}.py"
-    if not f.exists():
+    if not f.exists() or pid in pending:
         na.append({"property_id": pid, "reason": "not claimed yet: the model/correspondence for this property is not built in the committed state (see DESIGN.md section 4 for the plan); no technique other than Lean proof + correspondence will be substituted"})
         continue
     m = importlib.import_module(f"harness.props.{pid.lower()}")
